@@ -144,9 +144,9 @@ def fixed():
     return out
 
 
-def cases(rng, tier, good, ok, name_forms, good_space=None):
+def cases(rng, tier, good, ok, name_forms):
     out = [{"stream": "reconfig-fixed", "input": x} for x in fixed()]
-    for _ in range(650 if tier == "quick" else 10000):
+    for _ in range(500 if tier == "quick" else 8000):
         out.append({"stream": "reconfig", "input": gen(rng, good, ok, name_forms)})
     return out
 
